@@ -347,6 +347,13 @@ inline bool WaitWorker(pid_t pid, int *st, volatile const int64_t *cur_case) {
       }
       closedir(d);
     } else asleep = state == 'S';
+    // A worker waiting for a child process of its own (cross-process comparisons, CLI tools, isolated encodes) is
+    // not blocked as long as that child exists.
+    if (asleep) {
+      snprintf(path, sizeof path, "/proc/%d/task/%d/children", static_cast<int>(pid), static_cast<int>(pid));
+      int cfd = open(path, O_RDONLY);
+      if (cfd >= 0) { char cb[64]; ssize_t cn = read(cfd, cb, sizeof cb); close(cfd); if (cn > 0) asleep = false; }
+    }
     *all_asleep = asleep;
   };
   double idle_since = now(), started = idle_since;
